@@ -127,6 +127,21 @@ fn scenarios(thorough: bool) -> Vec<Scenario> {
             v.push(s);
         }
     }
+    // one session ahead of several remotes by different amounts (frames_ahead() and the wait
+    // recommendations are a maximum over the remote endpoints)
+    for (tp, lags) in [("1+1+1", vec![(1usize, 4i32), (2, 9)]), ("1+1+1", vec![(1, 10), (2, 3)]), ("1+1+1+1", vec![(1, 3), (2, 7), (3, 12)])] {
+        let mut s = base_scn("c17-leads", tp, 16, 0, false, Pred::RepeatLast, Program::Changing, 1);
+        for (node, lag) in &lags {
+            for r in 0..*lag {
+                s.scripted_stalls.push((*node, 2 + r));
+            }
+        }
+        s.name = format!("{} lags={lags:?}", s.name);
+        s.horizon = 30;
+        s.probe = 260;
+        s.checks = CK_C02;
+        v.push(s);
+    }
     // handshakes with many outstanding requests: the replies to the first `held` requests of one
     // peer are held back and handed over together after `silence` rounds in which every other
     // reply was lost (a retry every 200 ms = 12 rounds); which of the old requests still count
